@@ -163,13 +163,19 @@ func subMultiset(g, w []PlotPoint) error {
 }
 
 // GenPlotCase draws a plot case.
-func GenPlotCase(t *rapid.T, maxN int) PlotCase {
+func GenPlotCase(t *rapid.T, maxN int) PlotCase { return GenPlotCaseMin(t, 1, maxN) }
+
+// GenPlotCaseMin draws a plot case whose first attack has at least minN results.
+func GenPlotCaseMin(t *rapid.T, minN, maxN int) PlotCase {
 	names := rapid.SampledFrom([][]string{{""}, {"a"}, {"50qps", "100qps"}, {"a", "ab", "abc"}, {"x", "x: OK", "y"}, {"A", "a", "B", "b"}}).Draw(t, "names")
 	var c PlotCase
 	for ai, name := range names {
 		n := rapid.IntRange(1, maxN).Draw(t, fmt.Sprintf("n%d", ai))
 		if rapid.IntRange(0, 3).Draw(t, fmt.Sprintf("tiny%d", ai)) == 0 {
 			n = rapid.IntRange(1, 6).Draw(t, fmt.Sprintf("n2%d", ai))
+		}
+		if ai == 0 && minN > 1 {
+			n = rapid.IntRange(minN, maxN).Draw(t, "nlong")
 		}
 		a := PlotAttack{Name: name, TS: make([]int64, n), Latency: make([]int64, n), Failed: make([]bool, n)}
 		ts := rapid.Int64Range(1e18, 2e18).Draw(t, fmt.Sprintf("t0%d", ai))
